@@ -13,7 +13,9 @@ import (
 	"os"
 	"runtime"
 	"sync"
+	"sync/atomic"
 	"testing"
+	"time"
 
 	"vf/ev"
 )
@@ -23,6 +25,43 @@ import (
 func vfFinish(t *testing.T, r *ev.Run, minEvals int64) {
 	if code := r.Finish(minEvals); code != 0 {
 		t.Fatalf("property %s violated", r.Prop)
+	}
+}
+
+// vfAwait waits for wg under a bounded-progress watchdog: when *progress has not moved for
+// stallSeconds the wait is given up, a violation with the blocked goroutines of the
+// repository is recorded and false is returned (the workers are left where they hang).
+func vfAwait(run *ev.Run, wg *sync.WaitGroup, progress *int64, stallSeconds int, what string) bool {
+	done := make(chan struct{})
+	go func() { wg.Wait(); close(done) }()
+	last, quiet := atomic.LoadInt64(progress), 0
+	for {
+		select {
+		case <-done:
+			return true
+		case <-time.After(5 * time.Second):
+			cur := atomic.LoadInt64(progress)
+			if cur != last {
+				last, quiet = cur, 0
+				continue
+			}
+			quiet += 5
+			if quiet >= stallSeconds {
+				buf := make([]byte, 1<<20)
+				buf = buf[:runtime.Stack(buf, true)]
+				var blocked []string
+				for _, g := range bytes.Split(buf, []byte("\n\n")) {
+					if bytes.Contains(g, []byte("sipproxy.(")) && !bytes.Contains(g, []byte("_verif_test.go")) && len(blocked) < 8 {
+						if len(g) > 900 {
+							g = g[:900]
+						}
+						blocked = append(blocked, string(g))
+					}
+				}
+				run.Violation(what, map[string]any{"no_progress_for_s": quiet, "steps_completed": cur, "goroutines_inside_the_repository": blocked})
+				return false
+			}
+		}
 	}
 }
 
